@@ -7,7 +7,7 @@
    differential runs (field-wise comparison in the harness), which is why C19 is claimed as partial. *)
 From Coq Require Import List Arith NArith Bool.
 From Coq.Strings Require Import Byte.
-From EZK Require Import Gen.Tables Lib.Bytes Lib.Num Lib.Utf8 Model.C19 Proofs.C19.
+From EZK Require Import Gen.Tables Lib.Bytes Lib.Num Lib.Utf8 Model.C19 Proofs.C19 Model.C19c Proofs.C19c.
 Import ListNotations.
 Close Scope N_scope.
 Open Scope nat_scope.
@@ -71,6 +71,19 @@ Proof. exact parse_print_lines. Qed.
 Theorem C19_roundtrip : forall valid s,
   Forall (wf_line valid) (print_sd s) -> parse_text valid (print_text s) = Some s.
 Proof. exact parse_print_text. Qed.
+
+(* the candidate attribute, one of the field payloads the text theorem takes as a validity predicate: IceCandidate's Display
+   followed by IceCandidate::parse (the nom grammar, white space skipped in front of every element, extension pairs classified
+   into raddr / rport / unknown) gives back every candidate the API can hold and the line can carry - foundation of 1..32
+   ice-chars, numbers in their ranges, non-empty tokens without white space, a related address and a related port independently
+   present or absent, any number of further key/value pairs *)
+Theorem C19_candidate_roundtrip : forall c, wf_cand c = true -> parse_cand (print_cand c) = Some c.
+Proof. exact cand_roundtrip. Qed.
+
+Example C19_candidate_example :
+  let c := mkcand (B"5") 1%N (B"UDP") 1694498815%N (B"203.0.113.7") 40000%N (B"srflx") None (Some 50000%N) [(B"generation", B"0")] in
+  wf_cand c = true /\ print_cand c = B"candidate:5 1 UDP 1694498815 203.0.113.7 40000 typ srflx rport 50000 generation 0".
+Proof. vm_compute. split; reflexivity. Qed.
 
 (* non-vacuity: a session with two media sections, ICE and unknown attributes *)
 Example C19_example_roundtrip :
